@@ -28,6 +28,9 @@ type MinterCfg struct {
 	FirstID    uint32      `json:"first_id"`
 	Denom      string      `json:"denom"`
 	Periods    []MinterPer `json:"periods"`
+	// Order, when set, is the list position order in which Build emits the minters (a
+	// permutation of 0..len-1).  The schedule is defined by sequence ids, not by list order.
+	Order []int `json:"order,omitempty"`
 }
 
 type MinterPer struct {
@@ -162,7 +165,32 @@ func GenMinterCfg(t *rapid.T, maxPeriods int, maxSteps int64, maxDec int) Minter
 		}
 		cfg.Periods = append(cfg.Periods, p)
 	}
+	if n > 1 && rapid.IntRange(0, 2).Draw(t, "listOrder") == 0 {
+		idx := make([]int, n)
+		for i := range idx {
+			idx[i] = i
+		}
+		cfg.Order = rapid.Permutation(idx).Draw(t, "order")
+	}
 	return cfg
+}
+
+// PeriodAt returns the abstract period behind list position i of the built parameters.
+func (c MinterCfg) PeriodAt(i int) MinterPer {
+	if len(c.Order) == len(c.Periods) {
+		return c.Periods[c.Order[i]]
+	}
+	return c.Periods[i]
+}
+
+// Unordered reports whether the minters are listed out of ascending sequence id order.
+func (c MinterCfg) Unordered() bool {
+	for i, o := range c.Order {
+		if o != i {
+			return true
+		}
+	}
+	return false
 }
 
 func mustAny(v interface {
@@ -216,6 +244,13 @@ func (c MinterCfg) Build() (mintertypes.Params, Schedule) {
 		}
 		params.Minters = append(params.Minters, m)
 		sched.Periods = append(sched.Periods, sp)
+	}
+	if len(c.Order) == len(params.Minters) {
+		listed := make([]*mintertypes.Minter, len(params.Minters))
+		for i, o := range c.Order {
+			listed[i] = params.Minters[o]
+		}
+		params.Minters = listed
 	}
 	return params, sched
 }
